@@ -364,7 +364,7 @@ def lattice(tier, seed):
             xs = near(g)
             y = find_good(plan[0][5], xs)          # plan[0] is the identity wrapper: the leaf itself
             for wi, wname, need_hash, mk_val, decl, sname, uname in plan:
-                cand = xs if (wname == "id" or not quick) else inner(g, 8)
+                cand = xs if wname == "id" else inner(g, 8 if quick else 14)
                 vals = [mk_val(x, y) for x in cand if not (need_hash and not G.is_hashable(x))]
                 good = find_good(sname, vals)
                 for vi, v in enumerate(vals):
@@ -372,7 +372,7 @@ def lattice(tier, seed):
                         kinds = ENTRY_KINDS if (rich(g) or not quick) else \
                             (ENTRY_KINDS[(vi + li) % NK], ENTRY_KINDS[(vi + li + 3) % NK])
                     else:
-                        kinds = ENTRY_KINDS if not quick else (ENTRY_KINDS[(vi + wi + li) % NK],)
+                        kinds = tuple(ENTRY_KINDS[(vi + wi + li + 2 * j) % NK] for j in range(1 if quick else 3))
                     follow = FOLLOW[(vi + wi) % len(FOLLOW)]
                     for ch in chains_for(loose["name"], sname, decl, v, good, kinds, follow, uname):
                         chains.append((wname, G.shape(g), ch))
